@@ -523,4 +523,33 @@ theorem run_bufread {g : Cfg} {n k : Nat} (ok : BROK g n k) {Z : Bytes}
             exact hseen.2.1 x hx⟩⟩) (fun _ _ h => h))
     em evs0 c n0 fuel (Or.inl hst) hem hev0 hsegs hf hlen
 
+/-- `run_bufread` without the size hypothesis (`run_stages3'`). -/
+theorem run_bufread' {g : Cfg} {n k : Nat} (ok : BROK g n k) {Z : Bytes}
+    (hns : NoStuckW g.cap g.mc (g.U ++ Z))
+    (hNF : ∀ F x, F ++ x ++ Z = g.U ++ Z → (run .header F g.mc).st.isFinal = false)
+    (em : EndMode) (evs0 : List String) (c : Conn) (n0 fuel : Nat) (hst : FStage g c)
+    (hem : c.env.tr.endMode = em) (hev0 : ∀ s ∈ evs0, s ∈ c.env.tr.events)
+    (hsegs : c.env.segs = []) (hf : ans c.env.tr + 1 ≤ fuel) :
+    ∃ c'' fin, runTask fuel c n0 none = (c'', fin) ∧
+      (GEnd g.cap g.mc Z g.more (g.hs0 + 1)
+          (fun i : Bytes × Bytes × List Bytes => g.p.flags.toNat % 2 = 1 ∧ i.1 ++ i.2.1 = g.Ob ∧
+            g.content = taken k i.2.2)
+          (fun _ => g.U ++ Z) (fun i => g.Lb i.1 i.2.1)
+          (fun i => hsEvent g.p.request :: fEvent [] :: i.2.2.map fEvent) em evs0 (ans c.env.tr) c'' fin ∨
+       (fin = "RET" ∧ FB g k c'' ∧ c''.env.tr.endMode = em ∧ (∀ s ∈ evs0, s ∈ c''.env.tr.events))) :=
+  run_stages3' (cap24 g) (fun _ _ => hns) (fun _ _ => hNF) (fun _ _ h => h.cong)
+    (fun _ h => (sb_poll ok h).imp (fun _ _ h => h) (fun c1 _ h => by
+      obtain ⟨O1, O2, shown, hO, hseen, haf⟩ := h
+      obtain ⟨raw, hph, hw, hraw⟩ := haf.ph
+      exact ⟨(O1, O2, shown), ⟨haf.keep, hO, hseen.1⟩,
+        Or.inr ⟨raw, hph, by rw [hw], hraw, haf.log, haf.ben, haf.stop⟩,
+        ⟨haf.sc, haf.mtx, haf.ev.1, fun s hs => by
+          rcases List.mem_cons.1 hs with rfl | hs
+          · exact haf.ev.2
+          rcases List.mem_cons.1 hs with rfl | hs
+          · exact hseen.2.2
+          · obtain ⟨x, hx, rfl⟩ := List.mem_map.1 hs
+            exact hseen.2.1 x hx⟩⟩) (fun _ _ h => h))
+    em evs0 c n0 fuel (Or.inl hst) hem hev0 hsegs hf
+
 end Fcgi.E2E
